@@ -363,6 +363,7 @@ class Replayer:
         self.flags = {}
         self.calls = 0
         self.counters = {}
+        self.extra_ctx = {}
 
     def call(self, fn, st):
         if self.mode != "jit" or st["act"] in NOJIT:
@@ -426,6 +427,7 @@ class Replayer:
         """Returns None if the behaviour conforms, else a dict describing the first mismatch."""
         self.heap, self.expect, self.flags = {}, {}, {}
         for si, st in enumerate(behaviour):
+            self.extra_ctx = {}
             ctx = self.context(st)
             try:
                 fn = BINDINGS[st["act"]]
@@ -460,6 +462,7 @@ class Replayer:
                     if isinstance(oid, int) and oid in self.heap:
                         check_object(self.heap[oid], self.expect[oid], f"operand[{key}]")
             except Mismatch as m:
+                ctx.update(self.extra_ctx)
                 return {"step": si, "act": st["act"], "field": m.field, "note": m.note,
                         "observed": to_jsonable(m.observed), "expected": to_jsonable(m.expected), "ctx": ctx}
         # final sweep: every live object still matches its expected record
